@@ -20,7 +20,7 @@ import traceback
 import numpy as np
 
 from qv import workloads
-from qv.lib import EXCH, Rec, install_exchange_counter, rng_for, trace, vstr
+from qv.lib import Rec, install_exchange_counter, rng_for, trace, vstr, exch_finding_applies, exch_reset
 from qv.props.c05 import classify_exception, table_shape
 
 LEVEL = "exploration"
@@ -98,8 +98,7 @@ def run_one(rec: Rec, spec, steps, family, kind, style, mode):
         rec.viol(f"C04/build-raised/{classify_exception(ex)}", f"building the simulation raised {ex}"[:300], wit0)
         return
     st = {"reached": 0, "base": None, "after_reverted_exchange": False, "two_exchanges": False}
-    EXCH["ok"] = 0
-    EXCH["second_started"] = False
+    exch_reset()
     countable = family != "hamiltonian"
 
     def fresh(atoms):
@@ -129,11 +128,10 @@ def run_one(rec: Rec, spec, steps, family, kind, style, mode):
         st["base"] = t.after.get("ncalc")
         if t.k == 0 and mode == "A" and countable and st.get("end_of_step") is not None and t.before.get("ncalc") != st["end_of_step"]:
             viol("C04/evaluation-count/starting-a-run-costs-an-evaluation", f"{t.before['ncalc'] - st['end_of_step']} energy evaluation(s) were spent between the end of one run call and the first trial of the next", wit0)
-        st["two_exchanges_this_trial"] = EXCH["ok"] >= 2
-        if EXCH["ok"] >= 2:
+        st["two_exchanges_this_trial"] = exch_finding_applies()
+        if exch_finding_applies():
             st["two_exchanges"] = True
-        EXCH["ok"] = 0
-        EXCH["second_started"] = False
+        exch_reset()
         if style == "peratom":
             rec.count("peratom_trials")
         if style == "ase":
@@ -219,7 +217,7 @@ def run_one(rec: Rec, spec, steps, family, kind, style, mode):
     except Abandoned:
         rec.count("simulations_abandoned_after_listed_finding")
     except Exception as ex:  # noqa: BLE001
-        if EXCH["ok"] >= 2 or EXCH["second_started"]:
+        if exch_finding_applies():
             st["two_exchanges"] = True
         tb = traceback.extract_tb(ex.__traceback__)
         # raised inside a calculator (ASE's, or the harness's own in qv/lib.py) - not inside the package's operations,
